@@ -4,7 +4,7 @@ import ast
 import re
 from fractions import Fraction as F
 
-from .. import bary, idxspace, roles, shapesets as S
+from .. import bary, dualasm, idxspace, roles, shapesets as S
 from ..core import AnalysisError
 from ..src import unparse
 
@@ -567,6 +567,7 @@ def run(ctx):
     bary_family(ctx)
     compat(ctx)
     idxspace.index_spaces(ctx)
+    dualasm.dual1_assembly(ctx)
 
 
 def _builder_chains(fn):
